@@ -271,7 +271,7 @@ def QuoteRun (mn : Int) (d : Nat) (inner : List BRule) (s : BState) (line : Nat)
     Lv mn d (({ s2 with blkIndent := 0 }).pushFull "blockquote_open" "blockquote" 1 (some (line, 0)) none "" ">" "") next ∧
     blockTokenize inner mn (({ s2 with blkIndent := 0 }).pushFull "blockquote_open" "blockquote" 1 (some (line, 0)) none "" ">" "") line next = .ok s4 ∧
     s'.tokens = ((s4.pushFull "blockquote_close" "blockquote" (-1) none none "" ">" "").tokens).modify s.tokens.length
-      (fun t => t.setMap (some (line, s4.line)))
+      (fun t => t.setMap (some (line, s4.line))) ∧ s'.line = s4.line
 
 theorem quote_shape (mn : Int) (d : Nat) (codeOn : Bool) (terms : List BRule) (hin : ∀ t ∈ terms, SilentInert t)
     (inner : List BRule) (hinner : InnerOK mn d inner) (s : BState) (line endLine : Nat)
@@ -323,7 +323,7 @@ theorem quote_shape (mn : Int) (d : Nat) (codeOn : Bool) (terms : List BRule) (h
         have : s2.level = s.level := hv2
         simp only []
         omega
-      refine ⟨_, rfl, ?_, ?_, ?_, ⟨next, s2, s4, ht2, hv2, by simpa using hlm3.1, by simpa using hlm3.2.1, hLv3, hrun, ?_⟩⟩
+      refine ⟨_, rfl, ?_, ?_, ?_, ⟨next, s2, s4, ht2, hv2, by simpa using hlm3.1, by simpa using hlm3.2.1, hLv3, hrun, ?_, ?_⟩⟩
       · -- frame
         refine ⟨?_, ?_, ?_, ?_⟩
         · show (restoreLines _ line saved).lines = s.lines
@@ -370,6 +370,9 @@ theorem quote_shape (mn : Int) (d : Nat) (codeOn : Bool) (terms : List BRule) (h
         have : s2.tokens.length = s.tokens.length := by rw [ht2]; rfl
         show List.modify _ s2.tokens.length _ = _
         rw [this]
+        rfl
+      · show (restoreLines _ line saved).line = s4.line
+        rw [(restoreLines_fields saved _ line).2.2.2.2.1]
         rfl
 
 theorem ruleOK_blockquote (mn : Int) (d : Nat) (codeOn : Bool) (terms : List BRule) (hin : ∀ t ∈ terms, SilentInert t)
